@@ -75,31 +75,50 @@ pub fn install_panic_hook() {
         };
         let location = info.location().map(|l| format!("{}:{}", l.file(), l.line())).unwrap_or_default();
         let bt = std::backtrace::Backtrace::force_capture().to_string();
+        if std::env::var("VERIF_SHOW_BT").is_ok() {
+            eprintln!("{}", bt);
+        }
         let mut site = String::new();
         let lines: Vec<&str> = bt.lines().collect();
-        for (i, l) in lines.iter().enumerate() {
+        // frames: "  12: name" followed (optionally) by "      at file:line:col"; take the first
+        // frame located in the repository under test
+        let mut last_fn = String::new();
+        let mut pending_unlocated: Vec<String> = vec![];
+        for l in lines.iter() {
             let t = l.trim();
-            // frame lines look like "12: smartcalc::compiler::date::...::calculate"
-            if let Some(pos) = t.find(": ") {
-                let f = &t[pos + 2..];
-                if (f.starts_with("smartcalc::") || f.starts_with("<smartcalc::")) && !f.contains("closure") || (f.starts_with("smartcalc::") || f.starts_with("<smartcalc::")) {
-                    let mut s = f.to_string();
-                    // strip hash suffix
-                    if let Some(h) = s.rfind("::h") {
-                        if s.len() - h == 19 {
-                            s.truncate(h);
-                        }
+            if let Some(rest) = t.strip_prefix("at ") {
+                if rest.starts_with("/repo/") {
+                    let loc = rest.trim_start_matches("/repo/");
+                    let loc = loc.rsplitn(2, ':').nth(1).unwrap_or(loc); // drop the column
+                    let mut chain = pending_unlocated.join(" < ");
+                    if !chain.is_empty() {
+                        chain.push_str(" < ");
                     }
-                    // add file:line of the frame when present
-                    if let Some(next) = lines.get(i + 1) {
-                        let n = next.trim();
-                        if let Some(rest) = n.strip_prefix("at ") {
-                            let short = rest.rsplit("/src/").next().unwrap_or(rest);
-                            s = format!("{} (src/{})", s, short);
-                        }
-                    }
-                    site = s;
+                    site = format!("{}{} ({})", chain, last_fn, loc);
                     break;
+                }
+                pending_unlocated.clear();
+            } else if let Some(pos) = t.find(": ") {
+                if t[..pos].chars().all(|c| c.is_ascii_digit()) {
+                    if !last_fn.is_empty() && !pending_unlocated.contains(&last_fn) {
+                        // the previous frame had no location line yet; remember it if it looks like user code
+                    }
+                    let name = t[pos + 2..].to_string();
+                    // a frame without location (inlined callee) directly above the located frame
+                    if !name.contains("::") && !name.starts_with('<') && !name.starts_with("{closure") {
+                        pending_unlocated.push(name.clone());
+                        if pending_unlocated.len() > 2 {
+                            pending_unlocated.remove(0);
+                        }
+                    } else {
+                        pending_unlocated.clear();
+                    }
+                    last_fn = name;
+                    if let Some(p) = pending_unlocated.last() {
+                        if *p == last_fn {
+                            pending_unlocated.pop();
+                        }
+                    }
                 }
             }
         }
@@ -395,6 +414,8 @@ pub struct Ctx {
     pub assumptions: Mutex<Vec<String>>,
     pub exhaustive_parts: Mutex<Vec<String>>,
     pub hang: AtomicBool,
+    /// VERIF_SURVEY=1: do not stop at failures, collect them by signature (triage aid, never used by registered checks)
+    pub survey: Option<Mutex<BTreeMap<String, (u64, String)>>>,
 }
 
 fn mix(seed: u64, parts: &[&str], n: u64) -> [u8; 32] {
@@ -432,6 +453,7 @@ impl Ctx {
             assumptions: Mutex::new(vec![]),
             exhaustive_parts: Mutex::new(vec![]),
             hang: AtomicBool::new(false),
+            survey: if std::env::var("VERIF_SURVEY").is_ok() { Some(Mutex::new(BTreeMap::new())) } else { None },
         }
     }
 
@@ -449,7 +471,20 @@ impl Ctx {
     fn handle_verdict(&self, w: &mut Worker, v: &Verdict, strict: bool) -> bool {
         // returns true when the verdict is a (non-suppressed) failure
         match &v.res {
-            Res::Fail { kf, .. } => {
+            Res::Fail { kf, msg } => {
+                if let (Some(sv), false) = (&self.survey, strict) {
+                    let mut key: String = msg.chars().filter(|c| !c.is_ascii_digit()).take(110).collect();
+                    if let Some(k) = kf {
+                        key = format!("[{}] {}", k, key);
+                    }
+                    let mut m = sv.lock().unwrap();
+                    let e = m.entry(key).or_insert((0, v.rendered.clone()));
+                    e.0 += 1;
+                    if v.rendered.len() < e.1.len() {
+                        e.1 = v.rendered.clone();
+                    }
+                    return false;
+                }
                 if !strict {
                     if let Some(id) = kf {
                         if w.active_kf.contains(*id) {
@@ -732,6 +767,13 @@ impl Ctx {
 
     /// Write replay files, print VIOLATION lines, write evidence, return the exit code.
     pub fn finish(&self) -> i32 {
+        if let Some(sv) = &self.survey {
+            let m = sv.lock().unwrap();
+            eprintln!("---- survey: {} failure signatures ----", m.len());
+            for (k, (n, ex)) in m.iter() {
+                eprintln!("{:>7}  {}\n         e.g. {}", n, k, ex);
+            }
+        }
         let violations = self.violations.lock().unwrap().clone();
         let dir = format!("{}/replays", VERIF_DIR);
         let mut code = 0;
